@@ -18,10 +18,11 @@ stream of the C14 check):
   `HighWaterMark::new(frame.max_timestamp, frame.max_event_id)` — the two maxima are taken
   **independently** over the rows of the batch (`encoder.rs`), so the pair need not be the
   `(timestamp, event_id)` of any row.
-* The sink's mark after an append is the mark **of the frame just appended**
-  (`sink.rs: self.high_water = meta.high_water_mark`), on open it is the mark of the **last**
-  frame of the manifest (`bootstrap_from_manifest`) — not a maximum over frames. The order in
-  which batches arrive (shards, memtable flow vs. segment flow) therefore decides the mark.
+* The sink's mark is the **running lexicographic maximum** of the frame marks
+  (`sink.rs`: `self.high_water.advance(..)` on every append, `bootstrap_from_manifest` folds
+  `advance` over all frames of the manifest; `HighWaterMark::advance` replaces the mark only by a
+  lexicographically larger pair). (Until commit 60e3c76 it was the mark of the last frame —
+  finding C14-mark-from-last-frame, fixed.)
 * SHOW streams the stored frames, then runs the remembered query with
   `SINCE max(since, mark.ts)` and metadata `(created_at, high_water_ts = mark.ts)`; each delta
   batch is filtered row-wise by `(ts, id) > (mark.ts, mark.id)` (Rust tuple order =
@@ -30,10 +31,11 @@ stream of the C14 check):
   `timestamp` and `event_id` (always the case for selection queries).
 * The orchestrator always passes `materialization_high_water_ts` (`"0"` when there is no
   mark), so the pruner's `created_at` branch is never taken from SHOW.
-* SHOW first sends `AwaitFlush` to every shard (`wait_for_inflight_flushes`); REMEMBER does not,
-  and it appends the raw batches of its initial run — rows of a memtable whose flush is in its
-  window (files readable, passive buffer not yet released) arrive twice and are stored twice.
-  `QUERY` hides that double visibility by de-duplicating on the event id (`dedupById`).
+* SHOW and (since commit f1fe52c, finding C14-remember-in-flush-window, fixed) REMEMBER first
+  send `AwaitFlush` to every shard: their query runs when no flush is in its window any more
+  (`Store.flushEnd`). Both append / stream raw batches without the id de-duplication of QUERY's
+  response writer (`dedupById`), which is what hides the double visibility of a row in the
+  window from a plain `QUERY`.
 
 Batch arrival order is scheduling: the functions take the delivered batches as an argument
 (`sched`); `LegitShow` / `LegitRemember` say that the batches are a split of what the query
@@ -214,12 +216,13 @@ def St.init : St := { store := { mem := [], zones := [] }, cat := fun _ => none 
 /-- `HighWaterMark::new(frame.max_timestamp, frame.max_event_id)`: independent maxima. -/
 def frameHw (f : List Ev) : Nat × Nat := (maxOf (f.map (·.ts)), maxOf (f.map (·.id)))
 
-/-- The sink's mark: that of the last frame (`bootstrap_from_manifest`; after an append the
-appended frame is the last one), `(0,0)` without frames. -/
+/-- `HighWaterMark::advance`: replace the mark only by a lexicographically larger pair. -/
+def advance (m w : Nat × Nat) : Nat × Nat := if lexGt w m then w else m
+
+/-- The sink's mark: `advance` folded over the frame marks in manifest order, from `(0,0)`
+(`bootstrap_from_manifest`; every later append continues the fold). -/
 def sinkMark (frames : List (List Ev)) : Nat × Nat :=
-  match frames.getLast? with
-  | none => (0, 0)
-  | some f => frameHw f
+  (frames.map frameHw).foldl advance (0, 0)
 
 def isZero (w : Nat × Nat) : Bool := w.1 == 0 && w.2 == 0
 
@@ -281,18 +284,19 @@ def showM (s : St) (n : Nat) (sched : List (List Ev)) : St × Option (List Ev) :
     ({ s with cat := setCat s.cat n (e.afterShow sched) },
       some (e.frames.flatten ++ (keptBatches (sinkMark e.frames) sched).flatten))
 
-/-- The batches a SHOW receives are a split of its delta query's result. -/
+/-- The batches a SHOW receives are a split of its delta query's result — run behind the
+AwaitFlush barrier, i.e. on the store with every flush window closed. -/
 def LegitShow (s : St) (n : Nat) (sched : List (List Ev)) : Prop :=
   match s.cat n with
   | none => True
-  | some e => sched.flatten.Perm (deltaQuery s.store e)
+  | some e => sched.flatten.Perm (deltaQuery s.store.flushEnd e)
 
 instance (s : St) (n : Nat) (sched : List (List Ev)) : Decidable (LegitShow s n sched) := by
   unfold LegitShow; split <;> infer_instance
 
-/-- The batches REMEMBER receives are a split of the live query's result. -/
+/-- The batches REMEMBER receives are a split of the live query's result, behind the same barrier. -/
 def LegitRemember (s : St) (q : Spec) (sched : List (List Ev)) : Prop :=
-  sched.flatten.Perm (runQuery s.store q none)
+  sched.flatten.Perm (runQuery s.store.flushEnd q none)
 
 instance (s : St) (q : Spec) (sched : List (List Ev)) : Decidable (LegitRemember s q sched) := by
   unfold LegitRemember; infer_instance
